@@ -16,15 +16,17 @@ import catalogue
 HERE = os.path.dirname(os.path.abspath(__file__))
 
 
-def gen_cpp(cat, outdir, per_tu=3):
+def gen_cpp(cat, outdir, per_tu=3, sw_every=0):
     os.makedirs(outdir, exist_ok=True)
     files = []
     for i in range(0, len(cat), per_tu):
         p = os.path.join(outdir, "shapes_%02d.cpp" % (i // per_tu))
         with open(p, "w") as f:
             f.write('#include "alg_rt.hpp"\n')
-            for s in cat[i:i + per_tu]:
+            for j, s in enumerate(cat[i:i + per_tu]):
                 f.write("// %s\nALG_SHAPE(%d, %s)\n" % (s["spec"]["text"], s["spec"]["id"], s["cpp"]))
+                if sw_every and (i + j) % sw_every == 0 and not any(k in ("sched", "lvwss") for k in s["spec"]["kind"]):
+                    f.write("ALG_SHAPE_SW(%d)\n" % s["spec"]["id"])      # sync_wait as the outermost driver
         files.append(p)
     return files
 
@@ -190,11 +192,12 @@ def run(ctx):
 
     def replay_cfg(bc):
         # ---- build
-        gh = hashlib.sha1(json.dumps([s["cpp"] for s in cat]).encode()).hexdigest()[:16]
+        sw_every = (3 if ctx.quick else 1) if prop == "C05" else 0
+        gh = hashlib.sha1(json.dumps([s["cpp"] for s in cat] + [sw_every]).encode()).hexdigest()[:16]
         gdir = os.path.join(vlib.VERIF, "_build", "alg_gen_" + gh)
-        files = gen_cpp(cat, gdir)
+        files = gen_cpp(cat, gdir, sw_every=sw_every)
         exe = vlib.build(ctx, "alg_driver", [os.path.join(HERE, "driver.cpp")] + files,
-                         lib=["inplace_stop_token.cpp", "async_stack.cpp", "exception.cpp"], incs=[HERE], opt="-O0",
+                         lib=["inplace_stop_token.cpp", "async_stack.cpp", "exception.cpp", "manual_event_loop.cpp"], incs=[HERE], opt="-O0",
                          std=bc["std"], defs=bc["defs"], cxx=bc.get("cxx", "g++"), recover=True)
         # ---- replay
         outp = os.path.join(ctx.work, "replay_out_%s.ndjson" % bc["name"])
@@ -279,6 +282,37 @@ def run(ctx):
                                    kinds=sorted(set(sh["kind"])), mode=b["cfg"]["mode"], throwAt=b["cfg"].get("throwAt"), stopIn=b["cfg"].get("stopIn"),
                                    steps=steps, what="%s: %s [modes %s, steps %s, at step %s]" % (
                                        sh["text"], "; ".join(hard.values()), json.dumps(b["cfg"]["mode"], sort_keys=True), steps, at)))
+        # ---- C05: sync_wait as the outermost driver - for behaviours in which everything completes inside start(), the value
+        # returned / exception thrown / nullopt must be the channel and payload Senders.tla predicts for the outer receiver
+        if prop == "C05" and sw_every:
+            swb = [(x, b) for x, b in enumerate(behaviours)
+                   if len(b["steps"]) == 1 and b["steps"][0]["k"] == "S" and len(b["steps"][0]["exp"]["root"]) == 1
+                   and all(m["inl"] for m in b["cfg"]["mode"].values()) and not b["cfg"].get("stopIn")]
+            swp = os.path.join(ctx.work, "sw_behaviours.ndjson")
+            with open(swp, "w") as f:
+                for i, (x, b) in enumerate(swb):
+                    f.write(json.dumps(dict(b=i, cfg=b["cfg"], steps=[])) + "\n")
+            swo = os.path.join(ctx.work, "sw_out.ndjson")
+            swl = os.path.join(ctx.work, "sw_log.ndjson")
+            sums, swdeaths = vlib.run_batches(ctx, exe, ["--sw", "--behaviours", swp, "--out", swo], len(swb), swl, timeout=1200, recover=True)
+            nsw = 0
+            if os.path.exists(swo):
+                for l in open(swo):
+                    try:
+                        r = json.loads(l)
+                    except Exception:
+                        continue
+                    nsw += 1
+                    x, b = swb[r["x"]]
+                    er = b["steps"][0]["exp"]["root"][0]
+                    sh = by_id[b["cfg"]["shape"]]["spec"]
+                    if (r["ch"], r["p"]) != (er["ch"], er["p"]) or msorted(r["fn"]) != msorted(b["steps"][0]["exp"]["fn"]):
+                        rep.violation(dict(engine="alg", config=bc["name"], event="ObservationMismatch", driver="sync_wait", shape=sh["text"], shape_id=sh["id"],
+                                           fields=["C05.result"], exp_ch=er["ch"], got_ch=r["ch"], ext_stop=False, kinds=sorted(set(sh["kind"])), mode=b["cfg"]["mode"],
+                                           throwAt=b["cfg"].get("throwAt"), steps=[("sync_wait", 0, "")],
+                                           what="sync_wait(%s): expected %s%s, got %s%s [modes %s]" % (sh["text"], er["ch"], er["p"], r["ch"], r["p"], json.dumps(b["cfg"]["mode"], sort_keys=True))))
+            rep.evaluations += nsw
+            rep.note("sync_wait driver: %d inline behaviours compared (value / exception / nullopt vs the specification's channel and payload)" % nsw)
         # ---- C11: declared static traits of every shape (read from the code at build time) vs. all behaviours of the shape
         if prop == "C11":
             rc, so, se = vlib.run_exe(exe, ["--traits"], timeout=120)
